@@ -40,11 +40,46 @@ TRIGGERS += ['<div style="overflow:AUTO; HEIGHT:50%">', '<div style="height:75%;
 
 ATTR_NAMES = ["style", "class", "id", "colspan", "rowspan", "width", "height", "align", "name", "group", "lang", "dir", "title", "border",
               "cellpadding", "bgcolor", "valign", "span", "start", "type", "value", "clear", "color", "size", "face", "nowrap"]
-ATTR_VALUES = ["x", "", "2", "0", "-1", "99999", "1e3", "50%", "100px", "3em", "red", "#fff", "a b", "a:b", "a:b:c", "x::y", ":", ";", ";;:",
+ATTR_VALUES = ["x", "", "2", "0", "-1", "mp-upper", "99999", "1e3", "50%", "100px", "3em", "red", "#fff", "a b", "a:b", "a:b:c", "x::y", ":", ";", ";;:",
                "color:red", "color:red;", "width:50%; height:300px", "background:url(http://x.org/a.png)", "filter:progid:DXImageTransform.M(s=1)",
                "overflow:auto; height:200px", "overflow:auto; height:80%", "height:50%", "display:none", "position:absolute", "font-size:200%", "float:right", "text-align:center",
                "border:1px solid #aaa", "width:900px", "COLOR:RED", "color : red ; ; width", "margin:0 auto", "a=b", "'", "<", ">", "&amp;", "é",
                "noprint", "infobox", "navbox", "wikitable sortable", "region_list", "references-small", "rtl", "ltr", "center", "left", "top"]
+
+
+def source_words():
+    """every identifier-like string constant of the cleaner's sources (class names, ids, style values the passes compare
+    against): regenerated from the working tree, so a newly keyed trigger is exercised without editing this file."""
+    global _SOURCE_WORDS
+    if _SOURCE_WORDS is None:
+        import ast
+        import os
+        import re
+
+        import mwlib.parser.treecleaner as tcm
+
+        base = os.path.dirname(os.path.dirname(tcm.__file__))
+        vals = set()
+        for rel in ("parser/treecleaner.py", "parser/treecleanerhelper.py", "rendering/styleutils.py", "rendering/miscutils.py", "parser/advtree.py"):
+            try:
+                tree = ast.parse(open(os.path.join(base, rel)).read())
+            except OSError:
+                continue
+            for n in ast.walk(tree):
+                if isinstance(n, ast.Constant) and isinstance(n.value, str) and re.fullmatch(r"[A-Za-z][\w-]{2,30}( [a-z]+){0,2}", n.value):
+                    vals.add(n.value)
+        _SOURCE_WORDS = sorted(vals)
+    return _SOURCE_WORDS
+
+
+_SOURCE_WORDS = None
+
+# tables inside image captions (directly and inside a wrapper), nested tables with captions: containers in odd places
+NESTED = ["[[File:x.jpg|thumb|foo {|\n| a || b\n|} bar]]", "[[File:x.jpg|thumb|foo <div><table><tr><td>a</td><td>b</td></tr></table></div> bar]]",
+          "[[File:x.jpg|thumb|foo <center><table><tr><td>a</td></tr></table></center>]]",
+          "[[File:x.jpg|thumb|<ul><li>x <table><tr><td>a</td></tr></table></li></ul>]]", "[[File:x.jpg|thumb|<blockquote>{|\n| q\n|}</blockquote>]]",
+          "{|\n|+ outer\n| {|\n|+ inner\n| c || d\n|}\n| e\n|}", "<ref>{|\n| r1 || r2\n|}</ref>", "* item {|\n| l1 || l2\n|}",
+          "<gallery>\nFile:a.png|cap {|\n| g\n|}\n</gallery>", "; term {|\n| t1\n|}\n: desc"]
 
 
 def attr_lexeme(rng: random.Random):
@@ -59,7 +94,7 @@ def attr_lexeme(rng: random.Random):
             name = name.capitalize()
         elif c < 0.45:
             name = name[:3] + name[3:].capitalize()
-        v = rng.choice(ATTR_VALUES)
+        v = rng.choice(ATTR_VALUES) if rng.random() < 0.7 else rng.choice(source_words())
         q = rng.choice(['"%s"', '"%s"', "'%s'", "%s"])
         attrs.append(name + rng.choice(["=", " = ", "="]) + q % v)
     a = " ".join(attrs)
@@ -67,6 +102,9 @@ def attr_lexeme(rng: random.Random):
                        "\n{| %s\n", "\n|- %s\n", "\n| %s |", "\n! %s |", "|| %s |", "<ol %s>", "<pre %s>", "<source %s>", "<gallery %s>", "<br %s/>",
                        "<center %s>", "<blockquote %s>", "<h2 %s>", "<caption %s>", "<hr %s>", "<references %s/>"])
     return form % a
+
+
+LEXEMES += NESTED + ['{| class="mp-upper"', '| colspan="0" |', '[[File:x.jpg|thumb|', '<table>', '</table>', '<tr>', '<td>', '</td>', '</tr>']
 
 
 def fuzz_text(rng: random.Random, n=None):
@@ -100,6 +138,12 @@ def trigger_doc(rng: random.Random):
         out.append(ln)
         if rng.random() < 0.05:
             out.append(attr_lexeme(rng).strip("\n") + " attr wqa")
+        if rng.random() < 0.04:
+            out.append(rng.choice(NESTED))
+        if ln.startswith("{|") and rng.random() < 0.25:       # the table keyed by a class/id the cleaner knows, not first in the article
+            out[-1] = "{| %s=\"%s\"" % (rng.choice(["class", "id"]), rng.choice(source_words()))
+        if ln.startswith("| ") and rng.random() < 0.06:
+            out[-1] = '| colspan="%s" |%s' % (rng.choice(["0", "-1", "x", "2", "99999", ""]), ln[1:])
         if rng.random() < 0.08:
             t = rng.choice([t for t in TRIGGERS if t.startswith("<div") or t.startswith("<span") or t.startswith("<table")])
             tag = t[1:t.index(" ")] if " " in t else t[1:-1]
